@@ -216,6 +216,16 @@ Example C05_example_overflow :
   = (asm_init, [Deliver [1; 0; 4; 0; 9]; Overflow; ContNoStart; Deliver [1; 0; 4; 0; 8]]).
 Proof. vm_compute. reflexivity. Qed.
 
+(* the state "stale partial PDU, then a start fragment that is a complete PDU": the complete
+   PDU is delivered, the stale data is gone, the orphan continuation that would have completed
+   the stale PDU is ignored (instance of C05_reassembly_from_any_state) *)
+Example C05_example_stale_partial :
+  asm_run asm_init [mkAcl 1 2 0 6 [6; 0; 62; 0; 16; 17];            (* announces 10 bytes, carries 6 *)
+                    mkAcl 1 2 0 7 [3; 0; 62; 0; 32; 33; 34];        (* complete single-fragment PDU *)
+                    mkAcl 1 1 0 4 [48; 49; 50; 51]]                 (* would complete the stale one *)
+  = (asm_init, [Deliver [3; 0; 62; 0; 32; 33; 34]; ContNoStart]).
+Proof. vm_compute. reflexivity. Qed.
+
 Example C05_example_iso :
   fst (send_iso_sdu 5 6 65535 [1; 2; 3; 4; 5]) =
   Some [mkIso 5 0 6 None (Some 65535) (Some 5) (Some 0) [1; 2];
